@@ -39,7 +39,11 @@ def programs(tier):
         out = quick + rest[::3]
     # corpus S (systematic rule-shape sweep): the theories that must be accepted; every tenth in the quick tier
     sweep = [p for p in modelgen.load_corpus("s") if not modelgen.read_meta(p[1]).get("may_be_rejected")]
-    out += sweep if tier == "thorough" else sweep[::10]
+    if tier != "thorough":
+        # all single-atom premises (every repeated-variable pattern of every relation), every tenth of the pairs
+        single = [p for p in sweep if len(p[0].split("_")[1]) == 1]
+        sweep = single + [p for p in sweep if p not in single][::10]
+    out += sweep
     return out
 
 
